@@ -376,6 +376,31 @@ def listener_write_facts(repo):
             if isinstance(n, (ast.Global, ast.Nonlocal)):
                 mods.append('%s: %s' % (rel, ast.unparse(n)))
     out.append('Definition module_level_mutables : list string := %s.' % clist(map(cstr, mods)))
+    # process-wide state set from library code, and memoised functions (another form of state shared between instances)
+    GLOBAL_SETTERS = ('np.seterr', 'numpy.seterr', 'np.seterrcall', 'np.random.seed', 'numpy.random.seed', 'random.seed', 'warnings.filterwarnings',
+                      'warnings.simplefilter', 'sys.setrecursionlimit', 'np.set_printoptions', 'os.putenv', 'locale.setlocale', 'np.errstate')
+    gstate, memo = [], []
+    for root, _, files in os.walk(os.path.join(repo, 'iOpt')):
+        for fn in sorted(files):
+            if not fn.endswith('.py'):
+                continue
+            rel = os.path.relpath(os.path.join(root, fn), repo).replace(os.sep, '/')
+            tree = ast.parse(open(os.path.join(root, fn)).read())
+            for n in ast.walk(tree):
+                if isinstance(n, ast.Call) and ast.unparse(n.func) in GLOBAL_SETTERS:
+                    gstate.append('%s: %s' % (rel, ast.unparse(n)[:60]))
+                if isinstance(n, (ast.Assign, ast.AugAssign)):
+                    for t in (n.targets if isinstance(n, ast.Assign) else [n.target]):
+                        if isinstance(t, ast.Subscript) and ast.unparse(t.value) == 'os.environ':
+                            gstate.append('%s: %s' % (rel, ast.unparse(n)[:60]))
+                if isinstance(n, (ast.FunctionDef, ast.ClassDef)):
+                    for d in n.decorator_list:
+                        if re.search(r'(^|\.)(lru_cache|cache|cached_property|memoize)\b', ast.unparse(d)):
+                            memo.append('%s: @%s %s' % (rel, ast.unparse(d)[:30], n.name))
+                if isinstance(n, ast.Call) and re.search(r'(^|\.)(lru_cache|cache)$', ast.unparse(n.func)) and n.args:
+                    memo.append('%s: %s' % (rel, ast.unparse(n)[:60]))
+    out.append('Definition process_global_state_calls : list string := %s.' % clist(map(cstr, sorted(gstate))))
+    out.append('Definition memoised_functions : list string := %s.' % clist(map(cstr, sorted(memo))))
     return out
 
 
@@ -388,6 +413,17 @@ def calculate_purity_facts(repo):
              ('iOpt/problems/GKLS.py', 'GKLS', ('iOpt/problems/GKLS_function/gkls_function.py', 'GKLSFunction'))]
     rows = []
     rets = []
+    hreads = []
+
+    def holder_reads(fn, holder):
+        """places where the evaluation READS the supplied holder's value (an augmented assignment, or a load of holder.value)"""
+        out = []
+        for n in ast.walk(fn):
+            if isinstance(n, ast.AugAssign) and ast.unparse(n.target) == holder + '.value':
+                out.append(ast.unparse(n)[:50])
+            if isinstance(n, ast.Attribute) and isinstance(n.ctx, ast.Load) and ast.unparse(n) == holder + '.value':
+                out.append('reads ' + holder + '.value')
+        return out
 
     def reach(cls, start):
         fns = {f.name: f for f in cls.body if isinstance(f, ast.FunctionDef)}
@@ -453,8 +489,11 @@ def calculate_purity_facts(repo):
         rows.append('(%s, %s)' % (cstr(cname), clist(map(cstr, ws))))
         r = [ast.unparse(n.value) for n in ast.walk(calc) if isinstance(n, ast.Return) and n.value is not None]
         rets.append('(%s, %s)' % (cstr(cname), clist(map(cstr, r))))
+        hr = holder_reads(calc, params[1] if len(params) > 1 else 'functionValue')
+        hreads += ['%s: %s' % (cname, x) for x in hr]
     return ['Definition calculate_extra_writes : list (string * list string) := %s.' % clist(rows),
-            'Definition calculate_returns : list (string * list string) := %s.' % clist(rets)]
+            'Definition calculate_returns : list (string * list string) := %s.' % clist(rets),
+            'Definition calculate_holder_reads : list string := %s.' % clist(map(cstr, hreads))]
 
 
 def skeleton_facts(repo):
